@@ -401,34 +401,35 @@ def _append_order(ctx):
     rel, cls = F.rel_cls("h5")
     fn = F.method(ctx, "h5", "write")
     q = cls + ".write"
-    order = None
-    for n in walk_no_nested(fn):
-        if isinstance(n, ast.For) and isinstance(n.target, ast.Name) and n.target.id == "name":
-            it = n.iter
-            if isinstance(it, (ast.List, ast.Tuple)):
-                order = const(it)
-            elif isinstance(it, ast.Call) and call_name(it) == "sorted" and it.args:
-                base = it.args[0]
-                keys = None
-                if isinstance(base, ast.Dict):
-                    keys = [const(k) for k in base.keys]
-                elif isinstance(base, ast.Name):
-                    for a in walk_no_nested(fn):
-                        if isinstance(a, ast.Assign) and dotted(a.targets[0]) == base.id and isinstance(a.value, ast.Dict):
-                            keys = [const(k) for k in a.value.keys]
-                order = sorted(keys) if keys else None
-            elif isinstance(it, ast.Name) or (isinstance(it, ast.Call) and isinstance(it.func, ast.Attribute) and it.func.attr in ("items", "keys")):
-                nm = it.id if isinstance(it, ast.Name) else dotted(it.func.value)
-                for a in walk_no_nested(fn):
-                    if isinstance(a, ast.Assign) and dotted(a.targets[0]) == nm and isinstance(a.value, ast.Dict):
-                        order = [const(k) for k in a.value.keys]
-            break
-    if order is None:
-        ctx.undecided("C19-R2", fn, rel, q, "append order", "the order in which the arrays are appended could not be determined")
-        return
-    ctx.decide(order[:1] == ["coordinates"], "C19-R2", fn, rel, q, "coordinates is the first array appended", "order: %s" % order[:4],
-               "arrays are appended in the order %s: the atom count is only validated by PyTables when `coordinates` is appended, so a write with a "
-               "different number of atoms is refused after %s have already grown (ragged file)" % (order, order[:order.index("coordinates")] if "coordinates" in order else order))
+    # by evaluation on a model of the PyTables file (sa/h5model.py)
+    from .. import h5model as H
+    from ..pysym import Unsupported as PUnsupported
+    try:
+        arr = H.arrays()
+        for first in (True, False):
+            res = H.run_write(ctx, arr, nodes_present=None if first else ["coordinates", "time", "cell_lengths", "cell_angles"], first_write=first)
+            order = [l_[1] for l_ in res["log"] if l_[0] == "append"]
+            ctx.decide(res["raised"] is None and order[:1] == ["coordinates"] and sorted(order) == sorted(arr), "C19-R2", fn, rel, q,
+                       "coordinates is the first array appended" + ("" if first else " (later write)"), "order: %s" % order[:4],
+                       ("the write is refused: %s" % res["raised"][:80]) if res["raised"] else
+                       "arrays are appended in the order %s: the atom count is only validated by PyTables when `coordinates` is appended, so a write with a "
+                       "different number of atoms is refused after %s have already grown (ragged file)" % (order, order[:order.index("coordinates")] if "coordinates" in order else order))
+        # a write that would make the file ragged is refused before anything is appended
+        base = ["coordinates", "time", "cell_lengths", "cell_angles"]
+        extra = H.arrays(fields=("velocities", "alchemicalLambda"))
+        cases = [("a field the file does not hold (velocities)", dict(arr, velocities=extra["velocities"]), base),
+                 ("a field the file does not hold (alchemicalLambda)", dict(arr, alchemicalLambda=extra["alchemicalLambda"]), base),
+                 ("a field of the file left out (time)", {k_: v_ for k_, v_ in arr.items() if k_ != "time"}, base),
+                 ("a field of the file left out (lambda)", dict(arr), base + ["lambda"]),
+                 ("the cell left out", {k_: v_ for k_, v_ in arr.items() if not k_.startswith("cell")}, base)]
+        for what, given, present in cases:
+            res = H.run_write(ctx, given, nodes_present=present, first_write=False)
+            n_app = sum(1 for l_ in res["log"] if l_[0] == "append")
+            ctx.decide(res["raised"] is not None and n_app == 0, "C19-R2", fn, rel, q, "later write with %s: refused, nothing appended" % what, (res["raised"] or "")[:40],
+                       ("accepted (%d arrays appended): the file becomes ragged" % n_app) if res["raised"] is None else
+                       "refused only after %d arrays have grown: the file is left ragged" % n_app)
+    except PUnsupported as e:
+        ctx.undecided("C19-R2", fn, rel, q, "append order", "write() not evaluable: %s" % e)
     # NetCDF: first deposit statement is the coordinates variable
     rel, cls = F.rel_cls("nc")
     fn = F.method(ctx, "nc", "write")
